@@ -523,6 +523,10 @@ fn boundary_values(width: usize, cur: u64) -> Vec<u64> {
             v.insert(x.to_bits() as u64);
         }
     }
+    if width == 1 {
+        // one-byte fields are mostly log2 sizes, modes and flags: every value
+        v.extend(0..=255u64);
+    }
     v.remove(&cur);
     v.into_iter().collect()
 }
@@ -654,10 +658,14 @@ pub fn build_cases(ctx: &Ctx, seeds: &[Seed]) -> Vec<Case> {
                 let bits = 8 * fl.width as u32;
                 let max = if bits == 64 { u64::MAX } else { (1u64 << bits) - 1 };
                 let cur = get_field(b, fl);
+                // one-byte fields (log2 sizes): a grid that reaches the sizes where an allocation
+                // or a shift goes wrong, not only the ends
+                let lg_grid: Vec<u64> = if fl.width == 1 { ctx.tier.pick(vec![8, 20, 26, 30, 31, 32, 63, 64], (3..=34).chain([40, 48, 56, 62, 63, 64, 65, 127, 128]).collect()) } else { vec![] };
                 let mut v: Vec<u64> = if ctx.tier == Tier::Thorough { vec![0, 1, 2, 3, 7, 8, max, max - 1, max / 2, max / 2 + 1, cur.wrapping_add(1) & max, cur.wrapping_sub(1) & max, cur.wrapping_mul(2) & max, 1 << (bits - 2), 1 << (bits - 1), 255 & max, 16 & max, 64 & max] } else { vec![0, max, cur.wrapping_add(1) & max] };
+                v.extend(lg_grid);
                 v.sort_unstable();
                 v.dedup();
-                v.retain(|x| *x != cur);
+                v.retain(|x| *x != cur && *x <= max);
                 v
             };
             let nf = s.fields.len();
